@@ -623,6 +623,9 @@ func checkC01(c *Ctx) {
 	r.Rule("C01.3", "station and client entry reach the same single derivation routine with the same inputs and version dispatch", 14)
 	c.checkC01Routine(sites)
 
+	// ================= C01.6 the derivation depends on its inputs only (not on earlier selections / shared caches)
+	checkSelectionPurity(c, "C01.6", "pkg/phantoms")
+
 	// ================= C01.4 draw order
 	r.Rule("C01.4", "published draw order from each derivation stream; legacy pre-draw gated by libver < 4; transport stream consumed once", 8)
 	c.checkC01Draws()
@@ -1164,6 +1167,62 @@ func (c *Ctx) checkC01Draws() {
 					r.Check(okk, "C01.4", "certsFromSeed: (client, server) = (first, second) certificate drawn", ret.Pos(), fnName(f), "results in draw order", "certsFromSeed returns the certificates in the opposite roles: each side presents the certificate the other side expects of itself")
 				})
 			}
+		}
+	}
+	// one derivation stream per registration: the keys returned by GenSharedKeys carry a stateful stream
+	// (TransportReader); handing the same result to two registrations makes the second one continue where the first
+	// stopped, so its transport keys are ones no client derives
+	for _, f := range c.funcsOfPkgs("pkg/station/lib", "pkg/regserver/regprocessor") {
+		for _, ci := range callsIn(f, shortIs("GenSharedKeys")) {
+			call, ok := ci.(*ssa.Call)
+			if !ok {
+				continue
+			}
+			var keyVals []ssa.Value
+			for _, ex := range extractOf(call, 0) {
+				keyVals = append(keyVals, ex)
+			}
+			// the local the result is stored into (its address or a load of it is what gets passed on)
+			eachInstr(f, func(in ssa.Instruction) {
+				if st, ok := in.(*ssa.Store); ok {
+					for _, kv := range keyVals {
+						if st.Val == kv {
+							if al, ok := st.Addr.(*ssa.Alloc); ok {
+								keyVals = append(keyVals, al)
+							}
+						}
+					}
+				}
+			})
+			var users []ssa.Instruction
+			eachInstr(f, func(in ssa.Instruction) {
+				c2, ok := in.(ssa.CallInstruction)
+				if !ok || in == ssa.Instruction(call) {
+					return
+				}
+				cal := c2.Common().StaticCallee()
+				if cal == nil || !isRepoPath(fnPkgPath(cal)) {
+					return
+				}
+				for _, a := range c2.Common().Args {
+					for _, kv := range keyVals {
+						if a == kv || dependsOn(a, kv) {
+							if typeShort(a.Type()) == "core.ConjureSharedKeys" || typeShort(a.Type()) == "*core.ConjureSharedKeys" {
+								users = append(users, in)
+								return
+							}
+						}
+					}
+				}
+			})
+			inLoop := false
+			for _, u := range users {
+				if again, _ := reach(f, u, isInstr(u), isInstr(call), nil); again {
+					inLoop = true
+				}
+			}
+			r.Check(len(users) <= 1 && !inLoop, "C01.4", fnName(f)+": the keys of one GenSharedKeys call go to at most one registration", call.Pos(), fnName(f), fmt.Sprintf("%d consumer call(s)", len(users)),
+				fmt.Sprintf("the result of one GenSharedKeys call is handed to %d registration-building call(s)%s: the registrations share one stateful TransportReader, the second one draws its obfs4 keys from where the first stopped and is filed under an identity no client derives", len(users), map[bool]string{true: " (inside a loop)", false: ""}[inLoop]))
 		}
 	}
 	// the transport stream is consumed at most once per registration
